@@ -49,7 +49,7 @@ def _phase(name):
 
 MANIFEST = dict(
     category="proof",
-    text="Lean 4, 30 theorems, none _partial, over Model/Scope.lean and three regenerated tables. "
+    text="Lean 4, 48 theorems, none _partial, over Model/Scope.lean, Model/ScopeExt.lean and three regenerated tables. "
          "(1) Lexical scoping, for all trees, positions, keys and values: lookup = nearest enclosing definition; the heap model of "
          "util.Scope (with clone/reparent/cycles) agrees with the chain model; writing k:v on a container (namespace, class, block, at any "
          "path) and writing it on every contained function without a nearer definition give every function the same lookups while "
@@ -66,6 +66,18 @@ MANIFEST = dict(
          "(library_format_eq_template, namespace_format_vs_template; the pre-fix namespace order is shown to violate it). "
          "(4) --option/--language: coercion (true/True/false/False, digit strings, text), the merge equals the same fields written in "
          "the YAML file (with or without an options: entry), crash sites (no '=', empty options:). "
+         "(5) FunctionNode.__init__ (Model/ScopeExt.lean fnInit): the attrs:/fattrs: groups merged into the parsed declaration and the "
+         "per-fortran_generic copies of the parameter list. For every parameter list, group and list of generic declarations: with "
+         "mappings under every name the node equals the node built from the declaration whose attribute dictionaries already hold the "
+         "group's entries after the inline ones and no groups (fn_attrs_block_eq_inline; inlined_is_inline_text links that to the "
+         "declaration text a++b through attrs_split); an absent group = an empty group; every generic variant holds, for an argument it "
+         "does not redeclare, the parameter AFTER the merge (fn_attrs_generic_sees_merged); the construction raises iff some "
+         "parameter's entry is not a mapping, naming the first such parameter. "
+         "(6) LibraryNode.__init__ option scope (defaults, update, literalinclude -> literalinclude2 promotion): the scope built from "
+         "the merged command line is the one built from the YAML file with the same fields (library_options_cli_eq_yaml[_absent]); the "
+         "promotion looks at the merged value wherever it came from; other keys keep the merged value. "
+         "(7) search path over an abstract file system (pathJoin = os.path.join, resolve = the for/else loop): first directory holding "
+         "the file wins, not found iff no directory holds it, search of a++b, soundness, no --path = ./name, absolute names. "
          "Table theorems (decide over data regenerated from the working tree on every run): create_wrapper assigns every field "
          "main_with_args reads, each a pass-through parameter or the parser default; --path/--option are argparse append fields whose "
          "default is [] so the search path of `--path P..` equals create_wrapper(path=[P..]); main.Config holds no class-level mutable "
@@ -74,7 +86,12 @@ MANIFEST = dict(
          "(allow list empty), and no value read from a function-scoped option/format field is stored in an attribute of a pass or wrapper "
          "object (cached across declarations), and inside a loop over .namespaces / .classes every read of a namespace- / class-scoped "
          "option is made on the loop variable's own scope (member_options_read_from_member). "
-         "Ties on every run through the compiled driver drv_scope: util.Scope operation programs incl. the real ClassNode.clone, real node construction "
+         "Ties on every run through the compiled driver drv_scope: util.Scope operation programs incl. the real ClassNode.clone (on format scopes and "
+         "on option scopes; a scope shared instead of cloned is reported), real FunctionNode construction through "
+         "create_library_from_dictionary on generated declarations x attrs/fattrs groups (incl. non-mapping entries, unknown names) x 0-3 "
+         "fortran_generic variants vs fnInit (op fa), the option scope of the library built by the real main_with_args vs libOptions (op "
+         "lo), the splicer file read by the real main_with_args on generated directory trees / path spellings (colon lists, trailing "
+         "slash, ./, empty component, absolute, directory of the same name) vs splicerFile over the set of existing files (op sp), real node construction "
          "(create_library_from_dictionary, blocks nested in blocks/classes/namespaces) vs build/views, Parser.attribute on real token "
          "streams, the real main_with_args merge; node construction must hand the user's description back unchanged (the model's "
          "constructors are pure); the Scope read trace validates the static read table and the function-scoped baseline. "
@@ -84,7 +101,9 @@ MANIFEST = dict(
          "YAML aliases vs copies, every eval_template field (harvested from ast.py) written under format: vs through its template option "
          "on library/namespace/class nodes, namespace-/class-scoped options on the library or a namespace vs on every namespace/class "
          "inside, sibling, empty block, every accepted attribute name inline vs "
-         "attrs/fattrs on functions/methods/constructors/arguments, generated option values YAML vs real command line incl. the case where the command line overrides other values and "
+         "attrs/fattrs on functions/methods/constructors/arguments, every option of default_options given with --option vs in the YAML file "
+         "compared on the library node's complete option scope and wrap flags (then on outputs), options/format fields of one "
+         "class-template instantiation vs the C files of the other instantiations (every position), generated option values YAML vs real command line incl. the case where the command line overrides other values and "
          "the other language written in the file, --path with stale "
          "look-alike files, create_wrapper once and in sequences vs fresh command-line runs).",
     design="3 C14",
@@ -94,9 +113,11 @@ MANIFEST = dict(
          "options inconsistent; format fields consumed through template strings are NOT in the static table, 71 of 320 traced fields "
          "have an explicit read). That every consumer reads the right scope is therefore proof only in the static/syntactic sense for "
          "options and exploration (oracle) for outputs. The chain model (views) takes node dictionaries with unique keys; its link to "
-         "the heap builder is checked per generated tree, not proved. Not modelled: keys _Scope__parent/_Scope__hidden, "
-         "flatten_namespace list sharing, non-ASCII digits in --option, the FunctionNode attrs merge itself (oracle only), the search-path "
-         "code of main_with_args (model searchPath is tied only through the --path oracle). The JSON debug dump is excluded from "
+         "the heap builder is checked per generated tree, not proved. Not modelled: keys _Scope__parent/_Scope__hidden (name-mangled slots of util.Scope: an "
+         "option of that name would overwrite the parent link; no option or format field has such a name), "
+         "flatten_namespace list sharing, non-ASCII digits in --option; in the FunctionNode model the declarator is an opaque number and "
+         "None-valued attribute entries are dropped (Declaration.attrs is a defaultdict); the file system of the search-path model is "
+         "the set of joined names the OS reports as regular files; which consumers read the merged attributes is oracle only. The JSON debug dump is excluded from "
          "container/member comparisons (it records where an option was written). Open finding, by design: format field "
          "function_suffix on a container of overloaded functions is replaced by the automatic _0/_1 numbering ('set unless local', the "
          "same rule as eval_template), because an inherited suffix would name all overloads alike; it is replayed from corpus/c14.txt "
@@ -107,7 +128,7 @@ MANIFEST = dict(
     technique="Lean 4 proof by induction over chains/trees/token lists + regenerated tables (decide) + differential correspondence through a "
               "compiled driver + run-time read tracing + metamorphic byte comparison of outputs",
 )
-MODULES = ["ShroudVerif.Props.C14"]
+MODULES = ["ShroudVerif.Props.C14", "ShroudVerif.Props.C14Ext"]
 THEOREMS = {
     "ShroudVerif.Props.C14": [
         "Shroud.Scope.lookup_nearest",
@@ -140,7 +161,27 @@ THEOREMS = {
         "Shroud.Scope.member_options_read_from_member",
         "Shroud.Scope.library_format_eq_template",
         "Shroud.Scope.namespace_format_vs_template",
-    ]
+    ],
+    "ShroudVerif.Props.C14Ext": [
+        "Shroud.Scope.mergeParams_allDicts",
+        "Shroud.Scope.fn_attrs_block_eq_inline",
+        "Shroud.Scope.fn_attrs_absent_eq_empty",
+        "Shroud.Scope.inlined_is_inline_text",
+        "Shroud.Scope.applyGeneric_keeps",
+        "Shroud.Scope.fn_attrs_generic_sees_merged",
+        "Shroud.Scope.fn_attrs_raises_iff",
+        "Shroud.Scope.fn_attrs_raises_first",
+        "Shroud.Scope.library_options_cli_eq_yaml",
+        "Shroud.Scope.library_options_cli_eq_yaml_absent",
+        "Shroud.Scope.literalinclude_promotion",
+        "Shroud.Scope.library_options_other_key",
+        "Shroud.Scope.resolve_first",
+        "Shroud.Scope.resolve_none_iff",
+        "Shroud.Scope.resolve_append",
+        "Shroud.Scope.resolve_sound",
+        "Shroud.Scope.splicer_default_cwd",
+        "Shroud.Scope.pathJoin_relative",
+    ],
 }
 
 TRACE_QUICK = ["tutorial", "classes", "strings", "pointers-cxx", "vectors", "namespace", "templates", "struct-cxx"]
@@ -244,49 +285,70 @@ def real_scope_program(ops):
 
 
 def _real_clone_class(S, cls, fns):
-    """the real ast.ClassNode.clone on a class whose fmtdict is S[cls] and whose functions' fmtdicts are S[f];
-    new scopes are numbered in creation order; result: new ids and, per new function, its parent chain as ids"""
+    """the real ast.ClassNode.clone on a class whose fmtdict (even cls) or options scope (odd cls) is S[cls] and whose
+    functions' scopes of that kind are S[f]; the real code treats both kinds alike and the model has one cloneClass.
+    New scopes are numbered in creation order; result: new ids and, per new function, its parent chain as ids.
+    A 'new' scope that is an existing one (shared instead of cloned) is reported as dup<id>."""
     from shroud import util, ast
     flags = dict(wrap_fortran=False, wrap_c=False, wrap_python=False, wrap_lua=False)
+    as_options = (cls % 2 == 1)
     node = ast.ClassNode.__new__(ast.ClassNode)
-    node.fmtdict = S[cls]
-    node.options = util.Scope(None, **flags)
+    if as_options:
+        node.options = S[cls]
+        node.fmtdict = util.Scope(None)
+    else:
+        node.fmtdict = S[cls]
+        node.options = util.Scope(None, **flags)
     node.scope_file = []
     node.functions = []
     for f in fns:
         fn = ast.FunctionNode.__new__(ast.FunctionNode)
-        fn.fmtdict = S[f]
-        fn.options = util.Scope(node.options)
+        if as_options:
+            fn.options = S[f]
+            fn.fmtdict = util.Scope(node.fmtdict)
+        else:
+            fn.fmtdict = S[f]
+            fn.options = util.Scope(node.options)
         fn.ast = None
         fn._fmtargs = {}
         fn._fmtresult = {}
         node.functions.append(fn)
-    new = node.clone()
+    saved_wf = ast.WrapFlags
+    try:
+        if as_options:
+            # the generated scopes hold no wrap_* options (WrapFlags is not the subject of this tie)
+            ast.WrapFlags = lambda options: None
+        new = node.clone()
+    finally:
+        ast.WrapFlags = saved_wf
+    pick = (lambda x: x.options) if as_options else (lambda x: x.fmtdict)
     known = {id(x): i for i, x in enumerate(S)}
 
     def reg(x):
+        if id(x) in known:
+            return "dup%d" % known[id(x)]
         known[id(x)] = len(S)
         S.append(x)
         return len(S) - 1
-    ncls = reg(new.fmtdict)
+    ncls = reg(pick(new))
     nfs = []
     for fn in new.functions:
-        nfs.append(reg(fn.fmtdict))
-        p = fn.fmtdict.get_parent()
+        nfs.append(reg(pick(fn)))
+        p = pick(fn).get_parent()
         steps = 0
         while p is not None and id(p) not in known and steps < 50:
             reg(p)
             p = p.get_parent()
             steps += 1
     chains = []
-    for i in nfs:
-        ch, p, steps = [], S[i].get_parent(), 0
+    for fn in new.functions:
+        ch, p, steps = [], pick(fn).get_parent(), 0
         while p is not None and steps < 12:
             ch.append(str(known.get(id(p), "?")))
             p = p.get_parent()
             steps += 1
         chains.append(",".join(ch) if ch else "-")
-    return "%d;%s|%s" % (ncls, ",".join(map(str, nfs)), "|".join(chains))
+    return "%s;%s|%s" % (ncls, ",".join(map(str, nfs)), "|".join(chains))
 
 
 def _real_scope_program(ops):
@@ -1375,6 +1437,169 @@ def oracle_attrs(ctx, orc, r, thorough):
     ctx.note("attributes_never_accepted_by_a_generated_host", never)
 
 
+def real_library_scope(scr, yopts, opts):
+    """main_with_args up to and including the construction of the library -> (every local entry of its option scope
+    as text, wrap flags) or an error text"""
+    from shroud import main as smain
+    doc = collections.OrderedDict(library="tt")
+    if yopts:
+        doc["options"] = dict(yopts)
+    path = shroudrun.write_yaml(scr, "m.yaml", yaml.safe_dump(dict(doc), default_flow_style=False, sort_keys=False))
+    args = shroudrun.make_args([path], scr, options=opts)
+    got = {}
+    saved = smain.ast.create_library_from_dictionary
+
+    def capture(node):
+        got["lib"] = saved(node)
+        raise _Captured()
+
+    smain.ast.create_library_from_dictionary = capture
+    buf = io.StringIO()
+    try:
+        with contextlib.redirect_stdout(buf):
+            smain.main_with_args(args)
+    except _Captured:
+        pass
+    except (Exception, SystemExit) as e:
+        return "crash %s: %s" % (type(e).__name__, str(e)[:100]), doc
+    finally:
+        smain.ast.create_library_from_dictionary = saved
+    if "lib" not in got:
+        return "crash no-library-created", doc
+    lib = got["lib"]
+    res = {k: repr(v) for k, v in _scope_locals(lib.options).items() if k != "__line__"}
+    w = getattr(lib, "wrap", None)
+    for k in ("c", "fortran", "python", "lua"):
+        res["<wrap.%s>" % k] = repr(getattr(w, k, None))
+    return res, doc
+
+
+CLI_NODE_LIB = [("fn", "cFun0", {}, {}, "int {n}(int a, double b)"), ("fn", "cFun1", {}, {}, "void {n}(char *name +intent(out)+charlen(20))"),
+                ("fn", "cFun2", {}, {}, "double {n}(double *v +intent(in)+rank(1), int nv)"),
+                ("cls", "Thing", {}, {}, [("fn", "getIt", {}, {}, "int {n}()")])]
+
+
+def oracle_cli_library_scope(ctx, orc, scr, r, thorough, defaults_o):
+    """EVERY option name (all of default_options), given with --option and given in the YAML file: the option scope of
+    the library node and its wrap flags after construction must be the same (this is what every consumer reads; it
+    sees options whose consequences are derived while the library is constructed).  A difference is then shown on the
+    outputs of a small library in fresh processes."""
+    dist = collections.Counter()
+    shown = 0
+    for name in sorted(defaults_o):
+        dv = defaults_o[name]
+        if isinstance(dv, bool):
+            vals = [True, False]
+        elif isinstance(dv, int):
+            vals = [dv + 1]
+        elif isinstance(dv, str):
+            vals = [(dv + "_z") if dv else "zz"]
+        else:
+            dist["skipped_non_scalar_default"] += 1
+            continue
+        for v in vals:
+            d1 = os.path.join(scr, "cn-%s-%s-y" % (name, v if isinstance(v, bool) else "v"))
+            d2 = d1[:-1] + "c"
+            os.makedirs(d1); os.makedirs(d2)
+            cmd = ["%s=%s" % (name, _cli_text(v, 0))]
+            a, doc_a = real_library_scope(d1, {name: v}, [])
+            b, doc_b = real_library_scope(d2, None, cmd)
+            common.rmtree(d1); common.rmtree(d2)
+            ctx.count(1)
+            orc.kinds["cli-library-scope"] += 1
+            dist[type(v).__name__] += 1
+            if a == b:
+                if isinstance(a, dict):
+                    ctx.nontrivial("cli-node:%s:%r" % (name, v))
+                continue
+            if isinstance(a, dict) and isinstance(b, dict):
+                ks = sorted(k for k in set(a) | set(b) if a.get(k) != b.get(k))
+                detail = "; ".join("%s: %s (YAML) vs %s (--option)" % (k, a.get(k), b.get(k)) for k in ks[:4])
+            else:
+                detail = "%s (YAML) vs %s (--option)" % (a if isinstance(a, str) else "ok", b if isinstance(b, str) else "ok")
+            full_a = {"library": "cli", "cxx_header": "cli.h", "options": {name: v}, "tree": CLI_NODE_LIB}
+            full_b = dict(full_a, options={})
+            what = "options: {%s: %r} in the YAML file vs --option %s: the library's option scope differs: %s" % (name, v, cmd[0], detail)
+            if shown < 3:
+                shown += 1
+                ta, e1 = run_doc_fresh(doc_yaml(full_a), "cli", scr, "cn%da" % shown, ["--option", "debug_testsuite=true"])
+                tb, e2 = run_doc_fresh(doc_yaml(full_b), "cli", scr, "cn%db" % shown, ["--option", "debug_testsuite=true", "--option", cmd[0]])
+                if ta is not None and tb is not None:
+                    fd = first_diff(ta, tb, skip_json=True)
+                    what += "; generated files: " + ("%s %s" % fd if fd else "no difference on the small library")
+            ctx.fail("cli-node:%s" % name, what,
+                     {"kind": "cli", "first": doc_yaml(full_a), "second": doc_yaml(full_b), "cmdline": ["--option", cmd[0]]})
+    ctx.note("cli_library_scope_distribution", dict(dist))
+
+
+def oracle_instantiations(ctx, orc, scr, r, thorough, opt_cases, fmt_cases):
+    """Options / format fields written for ONE instantiation of a class template (cxx_template entry) apply to that
+    instantiation and to nothing else: the C files of every other instantiation equal those of the run where no
+    instantiation is customised, whatever the position of the customised one (first, middle, last)."""
+    insts = ["<int>", "<double>", "<long>"]
+    body = [("fn", "ctor", {}, {}, "Box()"), ("fn", "put", {}, {}, "void {n}(const T &value)"),
+            ("block", "Bq", {}, {}, [("fn", "at", {}, {}, "T {n}(int n)")]), ("fn", "count", {}, {}, "int {n}(int *n +intent(out))")]
+
+    def doc(custom):
+        ct = []
+        for i, ins in enumerate(insts):
+            e = {"instantiation": ins}
+            if i in custom:
+                e.update(custom[i])
+            ct.append(e)
+        tree = [("fn", "free1", {}, {}, "int {n}(int q)"), ("cls", "Box", {}, {}, body, {"template": True, "cxx_template": ct})]
+        return {"library": "ins", "cxx_header": "ins.hpp", "options": {"debug_testsuite": True, "wrap_python": False, "wrap_lua": False},
+                "tree": tree}
+
+    def owned(tree, ins):
+        tag = "Box_" + ins.strip("<>")
+        return {k: v for k, v in tree.items() if tag in k and not k.endswith(".json")}
+
+    base, eb, yb = run_doc(doc({}), scr, "ins-base")
+    if eb:
+        ctx.tie_broken("instantiation-library-rejected", eb)
+        return
+    if not all(owned(base, ins) for ins in insts):
+        ctx.tie_broken("instantiation-files", "an instantiation of the class template has no file of its own: %s" % sorted(base))
+        return
+    cases = [("options", k, v) for k, v in opt_cases] + [("format", k, v) for k, v in fmt_cases]
+    always = [("options", "C_name_template", "{C_prefix}zq_{C_name_scope}{underscore_name}{function_suffix}"),
+              ("options", "F_force_wrapper", True), ("format", "C_prefix", "ZQ_")]
+    if not thorough:
+        cases = r.sample(cases, min(3, len(cases)))
+    cases = always + [c for c in cases if c not in always]
+    dist = collections.Counter()
+    for ci, (field, key, val) in enumerate(cases):
+        for pos in ([0, 1, 2] if thorough or ci < 2 else [r.randrange(3)]):
+            t1, e1, y1 = run_doc(doc({pos: {field: {key: val}}}), scr, "ins-%d-%d" % (ci, pos))
+            ctx.count(1)
+            orc.kinds["instantiation"] += 1
+            dist["%s.position%d" % (field, pos)] += 1
+            if e1:
+                dist["rejected"] += 1
+                continue
+            bad = None
+            for j, ins in enumerate(insts):
+                if j == pos:
+                    continue
+                for fn_ in sorted(owned(base, ins)):
+                    if t1.get(fn_) != base[fn_]:
+                        bad = (fn_, ins)
+                        break
+                if bad:
+                    break
+            if bad:
+                ctx.fail("instantiation:%s:%s:%d" % (field, key, pos),
+                         "%s %s=%r written for instantiation %s of a class template changes the files of instantiation %s (%s)" % (
+                             field, key, val, insts[pos], bad[1], bad[0]),
+                         {"kind": "instantiation", "first": y1, "second": yb, "file": bad[0]})
+            elif owned(t1, insts[pos]) != owned(base, insts[pos]):
+                ctx.nontrivial("instantiation:%s:%s:%d" % (field, key, pos))
+                dist["effective"] += 1
+    ctx.note("instantiation_locality_distribution", dict(dist))
+
+
+
 def gen_cli_options(r, defaults_o):
     """Option values of every kind: booleans, integers, enumerated strings, templates and free strings with capital
     letters, braces and spaces.  Returns {name: value} (value as YAML would hold it)."""
@@ -2021,9 +2246,11 @@ def oracle_pairs(ctx, scr, thorough, fs_options, fs_formats, defaults_o, default
     _guard(ctx, 'oracle_aliases', oracle_aliases, ctx, orc, scr, r, thorough, opt_cases, fmt_cases)
     _guard(ctx, 'oracle_format_vs_template', oracle_format_vs_template, ctx, orc, scr, r, thorough)
     _guard(ctx, 'oracle_member_kinds', oracle_member_kinds, ctx, orc, scr, r, thorough, defaults_o)
+    _guard(ctx, 'oracle_instantiations', oracle_instantiations, ctx, orc, scr, r, thorough, opt_cases, fmt_cases)
 
     _phase('oracle:cli+path')
     # ---------- YAML fields vs --option / --language (fresh processes, real command line)
+    _guard(ctx, 'oracle_cli_library_scope', oracle_cli_library_scope, ctx, orc, scr, r, thorough, defaults_o)
     _guard(ctx, 'oracle_cli', oracle_cli, ctx, orc, scr, r, thorough, defaults_o)
     _guard(ctx, 'oracle_paths', oracle_paths, ctx, orc, scr, thorough)
 
@@ -2247,6 +2474,245 @@ def oracle_corpus_libraries(ctx, scr, fs_options, defaults_o, names):
 
 
 # =====================================================================================
+# =====================================================================================
+# (D5) FunctionNode.__init__: attrs / fattrs merge and fortran_generic copies vs model (driver op `fa`)
+# =====================================================================================
+FA_TYPES = ["int {n}", "int *{n}", "double *{n}", "double {n}", "const char *{n}", "long {n}", "float *{n}"]
+FA_INLINE = ["+intent(in)", "+intent(out)", "+intent(inout)", "+rank=1", "+rank(2)", "+value", "+dimension(n)", "+len=30",
+             "+hidden", "+intent(out)+intent(in)", "+custom(a(b)c)"]
+FA_BLOCK_VALUES = {"intent": ["in", "out", "inout"], "rank": [1, 2, "1"], "value": [True], "dimension": ["n", "3", "(n)"],
+                   "len": [30, "30"], "hidden": [True], "deref": ["pointer", "raw"], "custom": ["x y", 1.5]}
+FA_NOT_DICT = ["in", 3, True, ["intent"], None]
+
+
+def gen_fn_case(r):
+    """-> (declaration dict for create_library_from_dictionary, list of generic decl texts)"""
+    names = r.sample(["a", "b", "c", "d", "e"], r.randrange(0, 5))
+    def arg(n):
+        t = r.choice(FA_TYPES).format(n=n)
+        return t + (" " + "".join(r.sample(FA_INLINE, r.randrange(1, 3))) if r.random() < 0.5 else "")
+    decl = "%s fa(%s)%s" % (r.choice(["void", "int", "int *", "double"]), ", ".join(arg(n) for n in names),
+                            " " + "".join(r.sample(FA_INLINE[3:9], r.randrange(1, 3))) if r.random() < 0.3 else "")
+    d = {"decl": decl}
+    def block():
+        ks = r.sample(sorted(FA_BLOCK_VALUES), r.randrange(0, 4))
+        return {k: r.choice(FA_BLOCK_VALUES[k]) for k in ks}
+    c = r.random()
+    if c < 0.75:
+        grp = {}
+        for n in r.sample(["a", "b", "c", "d", "e", "zz"], r.randrange(0, 4)):
+            grp[n] = r.choice(FA_NOT_DICT) if r.random() < 0.07 else block()
+        d["attrs"] = grp
+    if r.random() < 0.5:
+        d["fattrs"] = block()
+    gens = []
+    for _ in range(r.choice([0, 0, 1, 2, 3])):
+        gn = r.sample(["a", "b", "c", "d", "e", "qq"], r.randrange(1, 3))
+        gens.append("(" + ", ".join(arg(n) for n in gn) + ")")
+    if gens:
+        d["fortran_generic"] = [{"decl": g} for g in gens]
+    return d
+
+
+class _Intern:
+    def __init__(self):
+        self.ids = {}
+
+    def __call__(self, x):
+        return self.ids.setdefault(x, len(self.ids) + 1)
+
+
+def _enc_av(v):
+    if v is True:
+        return "T"
+    if v is None:
+        return "N"
+    if isinstance(v, bool):
+        return "s:" + common.enc("False")
+    if isinstance(v, int):
+        return "i:" + common.enc(str(v))
+    if isinstance(v, float):
+        return "f:" + common.enc(repr(v))
+    return "s:" + common.enc(str(v))
+
+
+def _enc_adict(d, it):
+    # Declaration.attrs is a defaultdict(lambda: None): reading a name inserts None, which readers cannot tell from absent
+    items = [(k, v) for k, v in d.items() if k != "__line__" and v is not None]
+    return ";".join("%d=%s" % (it("k:" + k), _enc_av(v)) for k, v in items) if items else "~"
+
+
+def _enc_params(ps, it):
+    def ty(a):
+        try:
+            return a.gen_decl(attrs=False, name="_")
+        except Exception:
+            return str(getattr(a.typemap, "name", "?")) + ("*" if a.is_pointer() else "")
+    return "|".join("%d/%d/%s" % (it("n:%s" % a.name), it("t:" + ty(a)), _enc_adict(a.attrs, it)) for a in ps) if ps else "-"
+
+
+def fn_case_request_and_real(d):
+    """request for the model from the REAL parse of the declaration texts (Parser.attribute is tied by `at`), and the
+    real FunctionNode built through ast.create_library_from_dictionary"""
+    from shroud import ast, declast
+    it = _Intern()
+    buf = io.StringIO()
+    with contextlib.redirect_stdout(buf):
+        lib0 = ast.LibraryNode()
+        a0 = declast.check_decl(d["decl"], namespace=lib0)
+        gen0 = []
+        for g in d.get("fortran_generic", []):
+            parser = declast.Parser(g["decl"], lib0)
+            gen0.append(parser.parameter_list())
+    req = ["fa", _enc_params(a0.params, it), _enc_adict(a0.attrs, it)]
+    if "attrs" in d:
+        ents = []
+        for n, v in d["attrs"].items():
+            ents.append("%d>%s" % (it("n:%s" % n), _enc_adict(v, it) if isinstance(v, dict) else "X"))
+        req.append("|".join(ents) if ents else "E")
+    else:
+        req.append("N")
+    req.append(_enc_adict(d["fattrs"], it) if "fattrs" in d else "N")
+    for g in gen0:
+        req.append(_enc_params(g, it))
+    try:
+        with contextlib.redirect_stdout(buf):
+            lib = ast.create_library_from_dictionary({"library": "fa", "declarations": [copy.deepcopy(d)]})
+        fn = lib.functions[0]
+        out = ["ok", _enc_params(fn.ast.params, it), _enc_adict(fn.ast.attrs, it)]
+        for g in fn.fortran_generic:
+            out.append(_enc_params(g.decls, it))
+        real = " ".join(out)
+    except RuntimeError as e:
+        m = re.search(r"attrs for argument '([^']*)' must be a dictionary", str(e))
+        real = "notdict %d" % it("n:%s" % m.group(1)) if m else "crash RuntimeError " + str(e)[:80]
+    except Exception as e:
+        real = "crash " + type(e).__name__
+    return " ".join(req), real
+
+
+# =====================================================================================
+# (D6) the library's option scope after the command-line merge vs model (driver op `lo`)
+# =====================================================================================
+LO_NAMES = ["debug", "wrap_python", "PY_array_arg", "F_CFI", "x", "literalinclude", "literalinclude2", "literalinclude"]
+
+
+def real_library_options(scr, yopts, ylang, opts, lang, keys):
+    """main_with_args up to and including the construction of the library; -> its option scope restricted to keys"""
+    from shroud import main as smain
+    doc = collections.OrderedDict(library="tt")
+    if yopts == "Z":
+        doc["options"] = None
+    elif yopts != "A":
+        doc["options"] = dict(yopts)
+    if ylang is not None:
+        doc["language"] = ylang
+    path = shroudrun.write_yaml(scr, "m.yaml", yaml.safe_dump(dict(doc), default_flow_style=False, sort_keys=False))
+    args = shroudrun.make_args([path], scr, options=opts, language=lang)
+    got = {}
+    saved = smain.ast.create_library_from_dictionary
+
+    def capture(node):
+        got["lib"] = saved(node)
+        raise _Captured()
+
+    smain.ast.create_library_from_dictionary = capture
+    buf = io.StringIO()
+    try:
+        with contextlib.redirect_stdout(buf):
+            smain.main_with_args(args)
+    except _Captured:
+        pass
+    except (Exception, SystemExit) as e:
+        return "crash " + type(e).__name__
+    finally:
+        smain.ast.create_library_from_dictionary = saved
+    if "lib" not in got:
+        return "crash no-library-created"
+    loc = _scope_locals(got["lib"].options)
+    items = [(k, v) for k, v in loc.items() if k in keys]
+    return "ok " + (";".join("%s=%s" % (common.enc(k), _enc_cval(v)) for k, v in items) if items else "~")
+
+
+def _scope_locals(scope):
+    return collections.OrderedDict((k, v) for k, v in scope.__dict__.items() if not k.startswith("_Scope__"))
+
+
+def library_default_options():
+    from shroud import ast
+    buf = io.StringIO()
+    with contextlib.redirect_stdout(buf):
+        return _scope_locals(ast.LibraryNode().options)
+
+
+# =====================================================================================
+# (D7) the search path of main_with_args on a real directory tree vs model over the set of existing files (op `sp`)
+# =====================================================================================
+def real_splicer_file(work, path_args, name):
+    """runs main_with_args in cwd=work with a description that names one splicer file; -> the file it reads"""
+    from shroud import main as smain
+    ydir = os.path.join(work, "_in")
+    os.makedirs(ydir, exist_ok=True)
+    odir = os.path.join(work, "_out")
+    os.makedirs(odir, exist_ok=True)
+    ypath = shroudrun.write_yaml(ydir, "sp.yaml", yaml.safe_dump(
+        {"library": "sp", "options": {"wrap_python": False, "wrap_lua": False}, "splicer": {"f": [name]}}, sort_keys=False))
+    args = shroudrun.make_args([ypath], odir)
+    args.path = list(path_args)
+    got = {}
+    saved = smain.splicer.get_splicers
+
+    def capture(fullname, out):
+        got["f"] = fullname
+        raise _Captured()
+
+    smain.splicer.get_splicers = capture
+    cwd = os.getcwd()
+    buf = io.StringIO()
+    try:
+        os.chdir(work)
+        with contextlib.redirect_stdout(buf):
+            smain.main_with_args(args)
+    except _Captured:
+        pass
+    except RuntimeError as e:
+        return "none" if "File not found" in str(e) else "crash RuntimeError"
+    except (Exception, SystemExit) as e:
+        return "crash " + type(e).__name__
+    finally:
+        os.chdir(cwd)
+        smain.splicer.get_splicers = saved
+    return "some " + common.enc(got["f"]) if "f" in got else "crash nothing-read"
+
+
+def gen_search_case(r, work, i):
+    """a directory tree under work/<i>/ with the file in some directories; path arguments in several spellings"""
+    base = os.path.join(work, "s%d" % i)
+    os.makedirs(base)
+    name = r.choice(["x.f", "sub/x.f", "x.f"])
+    dirs = ["d0", "d1", "d2", "d3"]
+    has = {d: r.random() < 0.4 for d in dirs}
+    for d in dirs:
+        os.makedirs(os.path.join(base, d, "sub"))
+        if has[d]:
+            open(os.path.join(base, d, name), "w").write("! splicer begin module_top\n! splicer end module_top\n")
+    in_cwd = r.random() < 0.3
+    os.makedirs(os.path.join(base, "sub"), exist_ok=True)
+    if in_cwd:
+        open(os.path.join(base, name), "w").write("! splicer begin module_top\n! splicer end module_top\n")
+    if r.random() < 0.1:
+        os.makedirs(os.path.join(base, "d1", name), exist_ok=True) if not has["d1"] else None   # a directory of that name is no file
+    def spell(d):
+        return r.choice([d, d + "/", "./" + d, os.path.join(base, d), d + "//", "nonexistent", "", "."])
+    path_args = []
+    for _ in range(r.choice([0, 1, 1, 2, 3])):
+        path_args.append(":".join(spell(r.choice(dirs)) for _ in range(r.randrange(1, 4))))
+    if r.random() < 0.1:
+        name = os.path.join(base, r.choice(dirs), name)      # absolute name: the path is not consulted
+    return base, path_args, name
+
+
+
 def run(ctx):
     thorough = ctx.tier == "thorough"
     data, changed = extract_cli.regenerate()
@@ -2380,6 +2846,83 @@ def _run(ctx, thorough, ok, drv, scr):
         tags.append("cl")
         common.rmtree(d)
 
+    _phase('tie:fnattrs')
+    # ---------------- D5 FunctionNode attrs / fattrs / fortran_generic
+    fa_dist = collections.Counter()
+    for _ in range(1500 if thorough else 300):
+        d = gen_fn_case(r)
+        try:
+            q, real = fn_case_request_and_real(d)
+        except Exception as e:      # the generated text is rejected by the declaration parser: not this tie's subject
+            fa_dist["declaration_rejected:" + type(e).__name__] += 1
+            continue
+        reqs.append(q); impl.append(real); tags.append("fa")
+        fa_dist["attrs_group" if "attrs" in d else "no_attrs_group"] += 1
+        fa_dist["generic_variants=%d" % len(d.get("fortran_generic", []))] += 1
+        if "attrs" in d and d.get("fortran_generic"):
+            fa_dist["attrs_group_with_generic"] += 1
+        if "fattrs" in d:
+            fa_dist["fattrs_group"] += 1
+        fa_dist["result:" + real.split(" ")[0]] += 1
+    ctx.note("fn_attrs_tie_distribution", dict(fa_dist))
+    _phase('tie:libopts')
+    # ---------------- D6 the library's option scope after the merge
+    dflt_all = library_default_options()
+    lo_keys = [k for k in dflt_all if k in LO_NAMES] + ["x"]
+    lo_dflt = enc_yopts(collections.OrderedDict((k, dflt_all[k]) for k in dflt_all if k in LO_NAMES))
+    lo_dist = collections.Counter()
+    for i in range(300 if thorough else 80):
+        yo = r.choice(["A", "Z", "D", "D", "D"])
+        if yo == "D":
+            yo = {n: r.choice([True, False, "list", "", 72, 0]) for n in r.sample(sorted(set(LO_NAMES)), r.randrange(0, 3))}
+        ylang = r.choice([None, "c", "c++"])
+        lang = r.choice([None, None, "c", "c++"])
+        opts = []
+        for _ in range(r.randrange(0, 4)):
+            opts.append(r.choice(LO_NAMES) + "=" + r.choice(vals))
+        d = os.path.join(scr, "lo%d" % i)
+        os.makedirs(d)
+        reqs.append("lo %s %s %s %s %s %s %s" % (lo_dflt, common.enc("literalinclude"), common.enc("literalinclude2"), enc_yopts(yo),
+                                                 "N" if ylang is None else common.enc(ylang),
+                                                 "N" if lang is None else common.enc(lang), " ".join(common.enc(o) for o in opts)))
+        impl.append(real_library_options(d, yo, ylang, opts, lang, set(lo_keys)))
+        tags.append("lo")
+        lo_dist["literalinclude_on_command_line" if any(o.startswith("literalinclude=") for o in opts) else
+                "literalinclude_in_yaml" if isinstance(yo, dict) and "literalinclude" in yo else "other"] += 1
+        common.rmtree(d)
+    ctx.note("library_options_tie_distribution", dict(lo_dist))
+    _phase('tie:searchpath')
+    # ---------------- D7 search path
+    sp_dist = collections.Counter()
+    spw = os.path.join(scr, "spw")
+    os.makedirs(spw)
+    for i in range(200 if thorough else 60):
+        base, path_args, name = gen_search_case(r, spw, i)
+        real = real_splicer_file(base, path_args, name)
+        # the abstract file system handed to the model: which of the joined names denote a regular file (asked of the OS)
+        cands = []
+        for pa in (path_args or ["."]):
+            for comp in pa.split(":"):
+                cands.append(os.path.join(comp, name))
+        cwd = os.getcwd()
+        try:
+            os.chdir(base)
+            files = sorted(set(c for c in cands if os.path.isfile(c)))
+        finally:
+            os.chdir(cwd)
+        reqs.append("sp %s %s %s" % (";".join(common.enc(f) for f in files) if files else "~", common.enc(name),
+                                     " ".join(common.enc(p) for p in path_args)))
+        impl.append(real)
+        tags.append("sp")
+        sp_dist["path_args=%d" % len(path_args)] += 1
+        sp_dist[real.split(" ")[0]] += 1
+        if os.path.isabs(name):
+            sp_dist["absolute_name"] += 1
+        if any(":" in p for p in path_args):
+            sp_dist["colon_separated"] += 1
+    common.rmtree(spw)
+    ctx.note("search_path_tie_distribution", dict(sp_dist))
+
     ctx.count(len(reqs))
     disagreements = []
     if drv.available() and ok:
@@ -2406,6 +2949,12 @@ def _run(ctx, thorough, ok, drv, scr):
                 if t == "sc" and (" F" in a or " R" in a):
                     ctx.nontrivial(q)
                 if t == "cl" and (a.startswith("crash") or ";" in a or "b:" in a):
+                    ctx.nontrivial(q)
+                if t == "fa" and (a.startswith("notdict") or ("N " not in q and q.count(" ") > 4)):
+                    ctx.nontrivial(q)
+                if t == "lo" and "108,105,116,101,114,97,108" in q.split(" ", 5)[5]:
+                    ctx.nontrivial(q)
+                if t == "sp" and a.startswith("some"):
                     ctx.nontrivial(q)
         if disagreements:
             ctx.tie_broken("scope-correspondence", disagreements[:5])
